@@ -79,6 +79,19 @@ def predOccAt : Pred → Int → Option Occ
   | .traj _ ts, t => (findIdx (fun s => s == t) ts 0).map Occ.placed
   | .setBased occs, t => (findIdx (fun o => o.contains t) occs 0).map Occ.stored
 
+/-- `TrajectoryPrediction._create_occupancy_set` (prediction/prediction.py:389-411), seen through its time stamps: ONE occupancy
+    per state of the trajectory, in the order of the state list, stamped with THAT state's own time step and holding the
+    shape placed at THAT state (`Occ.placed i` for state number `i`). -/
+def occSetFrom : List Int → Nat → List (TS × Occ)
+  | [], _ => []
+  | t :: r, i => (.step t, .placed i) :: occSetFrom r (i + 1)
+def occSetOf (ts : List Int) : List (TS × Occ) := occSetFrom ts 0
+
+/-- `Prediction.occupancy_at_time_step` (prediction/prediction.py:121-138) on an explicit occupancy list: the first entry
+    whose time stamp contains `t`. -/
+def lookupOcc (occs : List (TS × Occ)) (t : Int) : Option Occ :=
+  ((findIdx (fun e : TS × Occ => e.1.contains t) occs 0).bind (occs[·]?)).map (·.2)
+
 /-- `prediction.trajectory.state_at_time_step(t)` (only a trajectory prediction has a trajectory). -/
 def Pred.trajStateAt : Pred → Int → Option StRef
   | .traj t0 ts, t => (CR.Occ.trajStateAt t0 ts.length t).map StRef.traj
@@ -202,6 +215,11 @@ structure Scn where
 def Scn.obstacles (s : Scn) : List (Nat × Obst) := s.st ++ s.dy ++ s.ph ++ s.en
 
 def Scn.idUsed (s : Scn) (i : Nat) : Bool := s.used.contains i || s.obstacles.any (fun x => x.1 == i)
+
+/-- `Scenario.obstacle_by_id(i)` (scenario/scenario.py:1086-1112): the four dictionaries are asked in the order static,
+    dynamic, phantom, environment — the first obstacle of `Scenario.obstacles` carrying the id; `none` (and a warning) when
+    no dictionary has it. -/
+def Scn.byId (s : Scn) (i : Nat) : Option (Nat × Obst) := s.obstacles.find? (fun x => x.1 == i)
 
 /-- `add_objects(obstacle)`: ValueError when the id is taken (nothing changes), else appended to the dictionary of its role. -/
 def Scn.add (s : Scn) (i : Nat) (o : Obst) : Res Scn :=
